@@ -120,7 +120,7 @@ SPECS_SC = ['none', 'scaler', 'adder', 'scaler_adder', 'ref', 'ref0', 'ref_ref0'
             'neg_scaler', 'neg_scaler_adder']
 SPECS_ARR = ['arr_scaler', 'arr_adder', 'arr_scaler_adder', 'arr_ref', 'arr_ref0', 'arr_ref_ref0',
              'arr_ref_lt_ref0', 'arr_neg_scaler', 'arr_mix_scaler', 'arr_scaler_sc_adder',
-             'sc_ref_arr_ref0']
+             'sc_ref_arr_ref0', 'arr_adder_zero', 'arr_ref0_zero']
 SPECS = SPECS_SC + SPECS_ARR
 UNITS = ['none', 'same', 'compat', 'offset']
 IDXS = ['none', 'list', 'slice']
@@ -161,6 +161,11 @@ def spec_kwargs(spec, size, pal):
         'arr_scaler_sc_adder': {'scaler': arr('S'), 'adder': sc('Ad')},
         'sc_ref_arr_ref0': {'ref': 6.0 + sc('R'), 'ref0': arr('R0')},
     }
+    if spec in ('arr_adder_zero', 'arr_ref0_zero'):
+        # array offsets with one entry exactly zero and the others not
+        a = arr('Ad') if spec == 'arr_adder_zero' else arr('R0only')
+        a[0] = 0.0
+        return {'adder': a} if spec == 'arr_adder_zero' else {'ref0': a}
     return t[spec]
 
 
@@ -358,7 +363,7 @@ def names(model):
 
 def full_cfg(cfg):
     out = {'model': cfg.get('model', 'M1'), 'pal': cfg.get('pal', 0),
-           'mode': cfg.get('mode', _DEF['mode'])}
+           'mode': cfg.get('mode', _DEF['mode']), 'api': cfg.get('api', 'add')}
     for v in ('x', 'y', 'obj'):
         d = dict(_DEF[v])
         d.update(cfg.get(v, {}))
@@ -406,7 +411,14 @@ def build(cfg, driver=None):
     xi, xpos = idx_of(cfg['x']['idx'], 3)
     kw = dict(spec_kwargs(cfg['x']['spec'], len(xpos), pal))
     kw.update(bound_kwargs(cfg['x']['bounds'], len(xpos), pal))
-    m.add_design_var(nm['x'], indices=xi, units=xu[1], **kw)
+    setopt = cfg.get('api', 'add') == 'set_options'
+    if setopt:
+        # declared plain, scaling and bounds given afterwards through set_design_var_options
+        m.add_design_var(nm['x'], indices=xi, units=xu[1])
+        if kw:
+            m.set_design_var_options(nm['x'], **kw)
+    else:
+        m.add_design_var(nm['x'], indices=xi, units=xu[1], **kw)
     decl['x'] = ('dv', nm['x'], 'x', xpos, kw, xu)
     m.add_design_var(nm['z'], **_ZFIX)
     decl['z'] = ('dv', nm['z'], 'z', np.arange(2), dict(_ZFIX), _UNITS['none'])
@@ -414,7 +426,14 @@ def build(cfg, driver=None):
     yi, ypos = idx_of(yc['idx'], ncv)
     kw = dict(spec_kwargs(yc['spec'], len(ypos), pal))
     kw.update(bound_kwargs(yc['bounds'], len(ypos), pal))
-    m.add_constraint(nm[cv], indices=yi, units=yu[1], linear=bool(yc['linear']), **kw)
+    if setopt:
+        bk = {k: v for k, v in kw.items() if k in ('lower', 'upper', 'equals')}
+        sk = {k: v for k, v in kw.items() if k not in bk}
+        m.add_constraint(nm[cv], indices=yi, units=yu[1], linear=bool(yc['linear']), **bk)
+        if sk:
+            m.set_constraint_options(nm[cv], **sk)
+    else:
+        m.add_constraint(nm[cv], indices=yi, units=yu[1], linear=bool(yc['linear']), **kw)
     decl['y'] = ('con', nm[cv], cv, ypos, kw, yu)
     fix = _GFIX if ov == 'g' else _YFIX
     if model == 'M1':
@@ -433,7 +452,12 @@ def build(cfg, driver=None):
     else:
         oi, opos = idx_of(cfg['obj']['idx'], 2)
     kw = dict(spec_kwargs(cfg['obj']['spec'], 1, pal))
-    m.add_objective(nm[objvar], index=oi, units=ou[1], **kw)
+    if setopt:
+        m.add_objective(nm[objvar], index=oi, units=ou[1])
+        if kw:
+            m.set_objective_options(nm[objvar], **kw)
+    else:
+        m.add_objective(nm[objvar], index=oi, units=ou[1], **kw)
     decl['obj'] = ('obj', nm[objvar], objvar, opos, kw, ou)
 
     if cfg['mode'] == 'auto':
@@ -511,7 +535,8 @@ def _sigclass(cfg, key):
     name = key
     if key == 'y':
         name = 'con(%s%s)' % (c['var'], ',linear' if c['linear'] else '')
-    return '%s/%s/u=%s' % (name, _speccls(c['spec']), c['units'])
+    return '%s/%s/u=%s%s' % (name, _speccls(c['spec']), c['units'],
+                             '/set_options' if cfg.get('api') == 'set_options' else '')
 
 
 def _speccls(spec):
@@ -966,8 +991,8 @@ def _worst(cfg):
 
 
 def _cfgstr(cfg):
-    return '%s pal=%d mode=%s lin_g=%s x=%s y=%s obj=%s' % (
-        cfg['model'], cfg['pal'], cfg['mode'], cfg['y']['linear'],
+    return '%s pal=%d mode=%s api=%s lin_g=%s x=%s y=%s obj=%s' % (
+        cfg['model'], cfg['pal'], cfg['mode'], cfg.get('api', 'add'), cfg['y']['linear'],
         ','.join(str(v) for v in cfg['x'].values()), ','.join(str(v) for v in cfg['y'].values()),
         ','.join(str(v) for v in cfg['obj'].values()))
 
@@ -1264,6 +1289,15 @@ def _role_product(model, pal):
                                                          'arr_neg_scaler'], UNITS, OBJ_IDXS):
         out.append({'kind': 'cfg', 'cfg': {'model': model, 'pal': pal, 'obj': {
             'spec': spec, 'units': units, 'idx': idx}}})
+    # the same scaling specs given after the declaration through set_*_options
+    for spec, units, idx in itertools.product(SPECS, ('none', 'compat'), ('none', 'list')):
+        out.append({'kind': 'cfg', 'cfg': {'model': model, 'pal': pal, 'api': 'set_options', 'x': {
+            'spec': spec, 'units': units, 'idx': idx, 'bounds': 'both_arr'}}})
+        out.append({'kind': 'cfg', 'cfg': {'model': model, 'pal': pal, 'api': 'set_options', 'y': {
+            'spec': spec, 'units': units, 'idx': idx, 'bounds': 'both_arr'}}})
+    for spec in SPECS_SC + ['arr_scaler', 'arr_ref_ref0']:
+        out.append({'kind': 'cfg', 'cfg': {'model': model, 'pal': pal, 'api': 'set_options', 'obj': {
+            'spec': spec, 'units': 'none', 'idx': 'none'}}})
     return out
 
 
